@@ -808,12 +808,20 @@ class Representation:
 
         return np.concatenate(blocks, axis=0)
 
+    def _adjoint_dtype(self):
+        # inverses of integer generators are stored as floats, so the
+        # adjoint action M -> g M g^-1 does not preserve an integer dtype
+        return np.result_type(
+            self.dtype, *[np.asarray(mat).dtype
+                          for mat in self.generators.values()]
+        )
+
     def gln_adjoint(self, base_ring=None, dtype=None, **kwargs):
         if base_ring is None:
             base_ring = self.base_ring
 
         if dtype is None:
-            dtype = self.dtype
+            dtype = self._adjoint_dtype()
 
         gln_adjoint = lie.hom.gln_adjoint(
             base_ring=base_ring, dtype=dtype
@@ -827,7 +835,7 @@ class Representation:
             base_ring = self.base_ring
 
         if dtype is None:
-            dtype = self.dtype
+            dtype = self._adjoint_dtype()
 
         sln_adjoint = lie.hom.sln_adjoint(
             base_ring=base_ring, dtype=dtype
